@@ -11,7 +11,7 @@ RULE = ("well-formed start poses (2-D and 3-D, 1–3 components, 1–2 people, 2
         "augment2d, normalize (reference points jointly observed and apart), normalize_distribution and back (non-zero deviation), focus (one observed point), zero_filled, copy, torch() / tensorflow() conversion and the "
         "operations those bodies offer; after every step: data shape = (frames, people, header points, header dimensions), confidence shape = (frames, people, points), mask shape = data shape, point missing in all "
         "dimensions ⇔ confidence 0; NumPy sequences end with write → read → compare (up to float32); the modelled prefix of NumPy sequences is run through the Lean model and shapes / missing patterns compared step by step; "
-        "non-trivial = sequence with ≥ 2 executed steps, distinct by JSON of (pose, operations)")
+        "30 % of the NumPy sequences open with one of 14 planned compositions (bbox → strict point selection → bbox, interpolate → torch → selection, …); non-trivial = sequence with ≥ 2 executed steps, distinct by JSON of (pose, operations)")
 ASSUMPTIONS = ["an operation that raises ends the sequence and is counted (distribution: raises:*), not reported: the property constrains the poses that are returned",
                "tensorflow sequences run in a child process; augment2d (tf.matmul) is not chosen on tensorflow bodies of shape (F > 1, 1, N, D): native crash in this sandbox",
                "preconditions are evaluated by the harness on the current pose exactly as the property words them"]
@@ -37,6 +37,13 @@ def clause_of(text):
     return text[:60]
 
 
+# planned openings (the rest of a sequence stays random): compositions in which one operation's output is a less usual input of the next
+PLANS = [["bbox", "get_components!", "bbox"], ["bbox", "remove_points", "bbox"], ["get_components!", "bbox", "get_components!", "bbox"], ["bbox", "bbox"],
+         ["bbox", "to_torch", "get_components!"], ["interpolate", "to_torch", "get_components"], ["interpolate", "bbox", "remove_points"], ["focus", "bbox", "flip", "interpolate"],
+         ["normalize", "bbox", "get_components!", "bbox"], ["remove_components", "bbox", "interpolate"], ["get_components!", "interpolate", "bbox", "zero_filled"],
+         ["bbox", "interpolate", "get_components!", "bbox"], ["slice_step", "interpolate", "slice_step"], ["to_torch", "get_components!", "remove_points"]]
+
+
 def run(ctx):
     rng = ctx.rng
     jobs = []
@@ -46,10 +53,11 @@ def run(ctx):
             continue
         start = rng.choice(["numpy"] * 6 + ["torch", "tf"])
         allow_tf = start == "tf" or rng.random() < 0.15
-        jobs.append({"case": case, "seed": rng.randrange(10 ** 9), "length": rng.randint(1, ctx.pick(8, 20)), "start": start, "allow_tf": allow_tf})
+        plan = rng.choice(PLANS) if start == "numpy" and rng.random() < 0.3 else None
+        jobs.append({"case": case, "seed": rng.randrange(10 ** 9), "length": rng.randint(1, ctx.pick(8, 20)), "start": start, "allow_tf": allow_tf, "plan": plan})
     local = [j for j in jobs if not j["allow_tf"]]
     child = [j for j in jobs if j["allow_tf"]]
-    results = [(j, seqexec.run_sequence(j["case"], j["seed"], j["length"], j["start"], False)) for j in local]
+    results = [(j, seqexec.run_sequence(j["case"], j["seed"], j["length"], j["start"], False, j.get("plan"))) for j in local]
     results += list(zip(child, run_child(child)))
     model_reqs, model_meta = [], []
     for j, res in results:
@@ -64,7 +72,9 @@ def run(ctx):
                 ctx.count("raises:%s:%s" % (k, s["error"].split(":")[0]))
         if len(ctx.samples) < 3:
             ctx.sample({"start": j["start"], "ops": [s["op"]["k"] if isinstance(s["op"], dict) else s["op"] for s in steps], "shapes": [s.get("shape") for s in steps]})
-        info = {"case": j["case"], "seed": j["seed"], "length": j["length"], "start": j["start"], "allow_tf": j["allow_tf"], "ops": res["ops"]}
+        info = {"case": j["case"], "seed": j["seed"], "length": j["length"], "start": j["start"], "allow_tf": j["allow_tf"], "plan": j.get("plan"), "ops": res["ops"]}
+        if j.get("plan"):
+            ctx.count("planned_openings")
         for i, s in enumerate(steps):
             if s.get("broken"):
                 k = s["op"]["k"] if isinstance(s["op"], dict) else s["op"]
@@ -125,7 +135,7 @@ def run(ctx):
 
 def replay(ctx, rep):
     c = rep["input"]
-    res = run_child([c])[0] if c.get("allow_tf") else seqexec.run_sequence(c["case"], c["seed"], c["length"], c["start"], False)
+    res = run_child([c])[0] if c.get("allow_tf") else seqexec.run_sequence(c["case"], c["seed"], c["length"], c["start"], False, c.get("plan"))
     bad = [s for s in res["steps"] if s.get("broken")]
     print("replay:", bad[0]["broken"] if bad else (res.get("roundtrip") or "well-formed after every step"))
     return 1 if bad or res.get("roundtrip") else 0
